@@ -432,6 +432,9 @@ def rule_type_layout(chk, prog, tier):
         if ty == 'S16': return rec(16, 8, [(0, w.t('long')), (8, w.t('double'))])
         if ty == 'A3': return it.call('mkarraytype', [w.t('char'), 0, 3])
         if ty == 'F2': return it.call('mkarraytype', [w.t('float'), 0, 2])
+        if ty in ('FAMd', 'FAMc'): return it.call('mkarraytype', [w.t('double' if ty == 'FAMd' else 'char'), 0, 0])        # flexible array member: no storage
+        if ty == 'Z0':
+            z = it.call('mkarraytype', [w.t('int'), 0, 0]); z.obj.f[('incomplete',)] = 0; return z                       # int z[0] (GNU): complete, size 0
         return w.t(ty)
     def after(it, w, t):
         it.models.update(M)
@@ -441,6 +444,9 @@ def rule_type_layout(chk, prog, tier):
     seqs = [tuple(s) for n in (1, 2) for s in itertools.product(ALPHA, repeat=n)]
     all3 = [tuple(s) for s in itertools.product(ALPHA, repeat=3)]
     seqs += all3 if tier == 'thorough' else random.Random(8).sample(all3, 500)
+    # members without storage: a flexible array member (last) and a zero-length array take part in the alignment, not in the size
+    P = lambda ty: (ty, None, True, 0)
+    seqs += [(P('int'), P('FAMd')), (P('char'), P('FAMc')), (P('long'), P('FAMc')), (P('short'), P('short'), P('FAMd')), (P('int'), P('Z0'), P('double')), (P('char'), P('Z0')), (P('float'), P('FAMd'))]
     idx = list(enumerate(seqs))
     jobs = []
     for kind, pack in (('struct', False), ('struct', True), ('union', False)):
